@@ -445,7 +445,7 @@ class FnGraph:
                             if cls[1] is not None:
                                 f4 = f4.set(dk + "|@%s.0" % cls[0], [cls[1]])
                         self.edges.append((u, self.node(tgt, f4), net, "call:" + cal))
-                elif cal.startswith(PARSER) and cal.rsplit("::", 1)[1].startswith(("parse_", "there_are")):
+                elif cal.startswith(PARSER) and (cal.rsplit("::", 1)[1].startswith(("parse_", "there_are")) or cal in ANALYSED):
                     self.calls.append((u, cal))     # no summary yet: no finite path through it
                 elif cal.endswith("Try>::branch") and t["args"] and "p" in t["args"][0]:
                     qb, qs = place_key(t["args"][0]["p"])
@@ -590,22 +590,34 @@ def lowest_prefix(graph, dist, summaries):
     return low
 
 
+ANALYSED = set()      # functions whose summaries are being computed: a call to one that has none yet has no finite path yet
+
+
 def analyse(prog):
     types = Types(prog)
     fns = [n for n in prog.fns if n.startswith(PARSER) and "mir" in prog.fns[n] and "::{" not in n
            and n not in (PARSER + "next_lexem", PARSER + "drop_lexem", PARSER + "new")
            and prog.fns[n]["mir"]["argc"] >= 1 and "parser::Parser" in prog.fns[n]["mir"]["locals"][1]["ty"]]
+    # associated functions of the parser that take no parser (`Self::signed_operand(expr, minus) -> Result<Option<Expr>, _>`):
+    # they cannot move the cursor, but the class of what they return (Ok(Some) / Ok(None) / Err) flows into their callers
+    helpers = [n for n in prog.fns if n.startswith(PARSER) and "mir" in prog.fns[n] and "::{" not in n and n not in fns
+               and n not in (PARSER + "next_lexem", PARSER + "drop_lexem", PARSER + "new")
+               and str(prog.fns[n]["mir"]["locals"][0]["ty"]).startswith(("core::result::Result<", "core::option::Option<"))
+               and not any("parser::Parser" in str(l_["ty"]) for l_ in prog.fns[n]["mir"]["locals"][1:1 + prog.fns[n]["mir"]["argc"]])]
     summaries = {}
     graphs = {}
-    for it in range(12):
+    ANALYSED.clear()
+    ANALYSED.update(fns + helpers)
+    for it in range(40):
         new = {}
-        for fn in fns:
+        for fn in fns + helpers:
             g = FnGraph(prog, fn, summaries, types)
             d = g.distances()
             rc = return_classes(g, d)
             if rc:
                 new[fn] = {"ret": rc, "low": lowest_prefix(g, d, {**summaries, **new})}
-            graphs[fn] = (g, d)
+            if fn in fns:
+                graphs[fn] = (g, d)
         if new == summaries:
             break
         summaries = new
